@@ -144,9 +144,36 @@ class Mat:
                 self.d[r][c] = _scalar(v.d[k] if isinstance(v, Mat) else v)
             return
         if self.ndim == 1:
+            n = len(self.d)
             if isinstance(idx, slice):
-                raise Unsupported("slice store into vector")
-            self.d[idx] = _scalar(v)
+                pos = list(range(*idx.indices(n)))
+            elif isinstance(idx, Mat) and getattr(idx, "is_bool", False):
+                if len(idx.d) != n:
+                    raise CERaise("IndexError", "boolean index did not match")
+                pos = [k for k, b in enumerate(idx.d) if b]
+            elif Mat._fancy(idx) is not None and not (isinstance(idx, list) and any(isinstance(x, bool) for x in idx)):
+                pos = Mat._fancy(idx)
+                if any(k < -n or k >= n for k in pos):
+                    raise CERaise("IndexError", "index out of bounds for vector store")
+            elif isinstance(idx, int) and not isinstance(idx, bool):
+                if idx < -n or idx >= n:
+                    raise CERaise("IndexError", "vector index")
+                self.d[idx] = _scalar(v)
+                return
+            else:
+                raise Unsupported(f"vector store with an index of type {type(idx).__name__}")
+            if isinstance(v, RowView):
+                v = Mat(list(v.row()), 1)
+            if isinstance(v, (list, tuple)):
+                v = Mat(list(v), 1)
+            if isinstance(v, Mat):
+                if v.ndim != 1 or len(v.d) != len(pos):
+                    raise CERaise("ValueError", "shape mismatch in vector store")
+                for k, x in zip(pos, v.d):
+                    self.d[k] = _scalar(x)
+            else:
+                for k in pos:
+                    self.d[k] = _scalar(v)
             return
         if isinstance(idx, tuple):
             i, j = idx
